@@ -1,486 +1,6 @@
-// Executor for C12.  Kinds of cases:
-//
-//	wheel  : drives collection.TimingWheel through its public API (SetTimer, MoveTimer,
-//	         RemoveTimer, Drain, Stop) with a rendezvous ticker or timex.NewFakeTicker and
-//	         reports, per operation, the returned error class and the (key,value)
-//	         callbacks that ran.  Callbacks may panic (value % 1000 == 999).
-//	new    : collection.NewTimingWheel argument validation.
-//	cache  : drives collection.Cache (with and without WithLimit) and reports, per cache
-//	         operation, what its timing wheel was asked to do (requests in the order in
-//	         which the wheel received them, with the delays actually passed), which
-//	         callbacks the wheel ran, and the keys held by the cache afterwards; ends
-//	         with a Drain of the wheel.  The wheel is observed through the relay of
-//	         harness/overlay/collection/zz_verif_c12.go.
-//	cleaner: drives the cache cleaner (core/stores/cache AddCleanTask, retry schedule)
-//	         on a relayed wheel.
+// Executor for C12 (see verifh/c12x).
 package main
 
-import (
-	"errors"
-	"sort"
-	"strconv"
-	"strings"
-	"sync"
-	"time"
+import "verifh/c12x"
 
-	"github.com/zeromicro/go-zero/core/collection"
-	"github.com/zeromicro/go-zero/core/logx"
-	rcache "github.com/zeromicro/go-zero/core/stores/cache"
-	"github.com/zeromicro/go-zero/core/timex"
-	"verifh/hx"
-)
-
-type Case struct {
-	ID       int     `json:"id"`
-	Kind     string  `json:"kind"`
-	N        int     `json:"n"`
-	Interval int64   `json:"interval"`
-	Ticker   string  `json:"ticker"`
-	Exec     bool    `json:"exec"`
-	Limit    int     `json:"limit"`
-	ExpireMs int64   `json:"expire_ms"`
-	Ops      [][]any `json:"ops"`
-}
-
-// one entry per operation of the case
-type Step struct {
-	F    [][2]int64 `json:"f"`              // callbacks (key, value), sorted
-	R    int        `json:"r"`              // 0 nil, 1 ErrArgument, 2 ErrClosed / tick not taken, 3 panic
-	T    [][]any    `json:"t,omitempty"`    // cache/cleaner: wheel requests [kind, key, value, delay]
-	Keys []int64    `json:"keys,omitempty"` // cache: keys of c.data afterwards
-	Ret  []any      `json:"ret,omitempty"`  // cache: Get -> [v|null]; Take -> [v|null, loaderCalled]
-	C    [][2]int64 `json:"c,omitempty"`    // cleaner: task invocations (task id, how many-th call)
-}
-
-type Out struct {
-	ID       int    `json:"id"`
-	Obs      []Step `json:"obs"`
-	N        int    `json:"n,omitempty"`        // cache/cleaner: numSlots of the client's wheel
-	Interval int64  `json:"interval,omitempty"` // cache/cleaner: its interval (ns)
-	Accepted bool   `json:"accepted"`           // new
-	Err      string `json:"err,omitempty"`
-}
-
-type rticker struct{ c chan time.Time }
-
-func (t *rticker) Chan() <-chan time.Time { return t.c }
-func (t *rticker) Stop()                  {}
-
-const sentinel = int64(-424242)
-
-// A goroutine is busy when it runs (or is about to run) code of the wheel, of a wheel
-// callback or of a wheel client, except: event loops parked in their select, the
-// cache's statistics loop, and the goroutine taking the dump.  A send on one of the
-// wheel's unbuffered channels returns only after the loop has taken the value, and a
-// goroutine that has been handed a value is no longer reported as waiting in select,
-// so polling after an operation returned cannot miss work in progress.
-func busy(stack string) bool {
-	if strings.Contains(stack, "hx.Stacks(") {
-		return false
-	}
-	if !strings.Contains(stack, "go-zero/core/collection") &&
-		!strings.Contains(stack, "go-zero/core/threading") &&
-		!strings.Contains(stack, "go-zero/core/stores/cache") {
-		return false
-	}
-	if strings.Contains(stack, "(*cacheStat).statLoop") {
-		return false
-	}
-	lines := strings.SplitN(stack, "\n", 3)
-	if len(lines) >= 2 && strings.Contains(lines[0], "[select") &&
-		(strings.Contains(lines[1], "collection.(*TimingWheel).run(") ||
-			strings.Contains(lines[1], "collection.verifC12RelayLoop(")) {
-		return false
-	}
-	return true
-}
-
-func num(v any) int64 { return int64(v.(float64)) }
-
-func key(v any) any {
-	if v == nil {
-		return nil
-	}
-	return num(v)
-}
-
-func errClass(err error) int {
-	switch {
-	case err == nil:
-		return 0
-	case errors.Is(err, collection.ErrArgument):
-		return 1
-	case errors.Is(err, collection.ErrClosed):
-		return 2
-	}
-	return 9
-}
-
-type fires struct {
-	mu  sync.Mutex
-	cur [][2]int64
-}
-
-func (f *fires) add(k, v int64) {
-	f.mu.Lock()
-	f.cur = append(f.cur, [2]int64{k, v})
-	f.mu.Unlock()
-}
-
-func (f *fires) take() [][2]int64 {
-	f.mu.Lock()
-	r := f.cur
-	f.cur = nil
-	f.mu.Unlock()
-	sort.Slice(r, func(i, j int) bool {
-		if r[i][0] != r[j][0] {
-			return r[i][0] < r[j][0]
-		}
-		return r[i][1] < r[j][1]
-	})
-	if r == nil {
-		r = [][2]int64{}
-	}
-	return r
-}
-
-// ---- the wheel through its public API ------------------------------------------------
-
-func runWheel(c Case) Out {
-	out := Out{ID: c.ID}
-	var fs fires
-	record := func(k, v any) {
-		fs.add(k.(int64), v.(int64))
-		if v.(int64)%1000 == 999 {
-			panic("verif: callback panics")
-		}
-	}
-	var rv *rticker
-	var fk timex.FakeTicker
-	var tk timex.Ticker
-	if c.Ticker == "fake" {
-		fk = timex.NewFakeTicker()
-		tk = fk
-	} else {
-		rv = &rticker{c: make(chan time.Time)}
-		tk = rv
-	}
-	tw, err := collection.NewTimingWheelWithTicker(time.Duration(c.Interval), c.N, record, tk)
-	if err != nil {
-		out.Err = err.Error()
-		return out
-	}
-	stopped := false
-	defer func() {
-		if !stopped {
-			tw.Stop()
-		}
-	}()
-	for _, op := range c.Ops {
-		r := 0
-		switch op[0].(string) {
-		case "set":
-			r = errClass(tw.SetTimer(key(op[1]), num(op[2]), time.Duration(num(op[3]))))
-		case "move":
-			r = errClass(tw.MoveTimer(key(op[1]), time.Duration(num(op[2]))))
-		case "remove":
-			r = errClass(tw.RemoveTimer(key(op[1])))
-		case "tick":
-			if stopped {
-				// the loop has returned: nobody receives from the ticker any more
-				// (a FakeTicker is closed by Stop, sending would panic)
-				if rv != nil {
-					select {
-					case rv.c <- time.Now():
-						r = 0
-					case <-time.After(3 * time.Millisecond):
-						r = 2
-					}
-				} else {
-					r = 2
-				}
-			} else if rv != nil {
-				rv.c <- time.Now()
-			} else {
-				fk.Tick()
-			}
-		case "drain":
-			r = errClass(tw.Drain(record))
-		case "stop":
-			func() {
-				defer func() {
-					if recover() != nil {
-						r = 3
-					}
-				}()
-				tw.Stop()
-			}()
-			stopped = true
-		}
-		if !stopped {
-			// the loop is sequential: once it takes this no-op, the operation above is done
-			tw.RemoveTimer(sentinel)
-		}
-		if !hx.Quiesce(busy, 5*time.Second) {
-			out.Err = "callbacks did not quiesce"
-			return out
-		}
-		out.Obs = append(out.Obs, Step{F: fs.take(), R: r})
-	}
-	return out
-}
-
-func runNew(c Case) Out {
-	out := Out{ID: c.ID}
-	var exec collection.Execute
-	if c.Exec {
-		exec = func(k, v any) {}
-	}
-	tw, err := collection.NewTimingWheel(time.Duration(c.Interval), c.N, exec)
-	if err == nil {
-		out.Accepted = true
-		// a real ticker runs: set a timer, stop, the wheel is closed
-		e1 := tw.SetTimer(int64(1), int64(1), time.Hour)
-		tw.Stop()
-		hx.Quiesce(busy, 5*time.Second)
-		e2 := tw.SetTimer(int64(1), int64(1), time.Hour)
-		out.Obs = []Step{{F: [][2]int64{}, R: errClass(e1)}, {F: [][2]int64{}, R: errClass(e2)}}
-	}
-	return out
-}
-
-// ---- a client's wheel seen through the relay ---------------------------------------------
-
-type recorder struct {
-	mu    sync.Mutex
-	ops   [][]any
-	fs    fires
-	keyOf func(any) (int64, bool)
-	valOf func(any) int64
-}
-
-func (r *recorder) Op(kind string, k, v any, delay time.Duration) {
-	var row []any
-	switch kind {
-	case "set":
-		kk, _ := r.keyOf(k)
-		row = []any{kind, kk, r.valOf(v), int64(delay)}
-	case "move":
-		kk, _ := r.keyOf(k)
-		row = []any{kind, kk, int64(delay)}
-	case "remove":
-		kk, _ := r.keyOf(k)
-		row = []any{kind, kk}
-	default:
-		row = []any{kind}
-	}
-	r.mu.Lock()
-	r.ops = append(r.ops, row)
-	r.mu.Unlock()
-}
-
-func (r *recorder) Fire(k, v any) {
-	kk, _ := r.keyOf(k)
-	r.fs.add(kk, r.valOf(v))
-}
-
-func (r *recorder) takeOps() [][]any {
-	r.mu.Lock()
-	o := r.ops
-	r.ops = nil
-	r.mu.Unlock()
-	if o == nil {
-		o = [][]any{}
-	}
-	return o
-}
-
-func cacheKey(k any) (int64, bool) {
-	s, ok := k.(string)
-	if !ok || !strings.HasPrefix(s, "k") {
-		return -1, false
-	}
-	n, err := strconv.ParseInt(s[1:], 10, 64)
-	if err != nil {
-		return -1, false
-	}
-	return n, true
-}
-
-var errFetch = errors.New("fetch failed")
-
-func intVal(v any) int64 {
-	if n, ok := v.(int64); ok {
-		return n
-	}
-	return -1
-}
-
-func runCache(c Case) Out {
-	out := Out{ID: c.ID}
-	rec := &recorder{keyOf: cacheKey, valOf: intVal}
-	var opts []collection.CacheOption
-	if c.Limit != 0 {
-		opts = append(opts, collection.WithLimit(c.Limit))
-	}
-	cache, err := collection.NewCache(time.Duration(c.ExpireMs)*time.Millisecond, opts...)
-	if err != nil {
-		out.Err = err.Error()
-		return out
-	}
-	tk := &rticker{c: make(chan time.Time)}
-	tap, err := collection.VerifC12TapCache(cache, tk, rec)
-	if err != nil {
-		out.Err = err.Error()
-		return out
-	}
-	defer tap.Stop()
-	out.N = tap.NumSlots
-	out.Interval = int64(tap.Interval)
-	if !hx.Quiesce(busy, 5*time.Second) {
-		out.Err = "the replaced wheel did not stop"
-		return out
-	}
-	for _, op := range c.Ops {
-		k := func() string { return "k" + strconv.FormatInt(num(op[1]), 10) }
-		st := Step{}
-		switch op[0].(string) {
-		case "set":
-			cache.SetWithExpire(k(), num(op[2]), time.Duration(num(op[3])))
-		case "setd":
-			cache.Set(k(), num(op[2]))
-		case "get":
-			v, ok := cache.Get(k())
-			if ok {
-				st.Ret = []any{v}
-			} else {
-				st.Ret = []any{nil}
-			}
-		case "del":
-			cache.Del(k())
-		case "take":
-			called := false
-			v, err := cache.Take(k(), func() (any, error) {
-				called = true
-				if op[2] == nil {
-					return nil, errFetch
-				}
-				return num(op[2]), nil
-			})
-			if err != nil {
-				st.Ret = []any{nil, called}
-			} else {
-				st.Ret = []any{v, called}
-			}
-		case "tick":
-			tk.c <- time.Now()
-		case "drain":
-			st.R = errClass(tap.Drain(func(k, v any) { rec.Fire(k, v) }))
-		}
-		if !hx.Quiesce(busy, 5*time.Second) {
-			out.Err = "wheel callbacks did not quiesce"
-			return out
-		}
-		st.T = rec.takeOps()
-		st.F = rec.fs.take()
-		st.Keys = []int64{}
-		for _, s := range tap.Keys() {
-			n, _ := cacheKey(s)
-			st.Keys = append(st.Keys, n)
-		}
-		sort.Slice(st.Keys, func(i, j int) bool { return st.Keys[i] < st.Keys[j] })
-		out.Obs = append(out.Obs, st)
-	}
-	return out
-}
-
-// ---- the cache cleaner: a failed clean task is re-armed from its own callback ------------
-
-func runCleaner(c Case) Out {
-	out := Out{ID: c.ID}
-	var mu sync.Mutex
-	ids := map[string]int64{}
-	rec := &recorder{}
-	rec.keyOf = func(k any) (int64, bool) {
-		s, _ := k.(string)
-		mu.Lock()
-		defer mu.Unlock()
-		if _, ok := ids[s]; !ok {
-			ids[s] = int64(len(ids))
-		}
-		return ids[s], true
-	}
-	// the value is a delayTask (private): the overlay reports its delay field instead
-	rec.valOf = intVal
-	tk := &rticker{c: make(chan time.Time)}
-	n, interval, stop, err := rcache.VerifC12CleanerWheel(tk, rec)
-	if err != nil {
-		out.Err = err.Error()
-		return out
-	}
-	defer stop()
-	out.N = n
-	out.Interval = int64(interval)
-	var cmu sync.Mutex
-	calls := [][2]int64{}
-	for _, op := range c.Ops {
-		st := Step{}
-		switch op[0].(string) {
-		case "add":
-			// a task that fails op[2] times, then succeeds; op[1] identifies it
-			id, fails := num(op[1]), num(op[2])
-			cnt := int64(0)
-			rcache.AddCleanTask(func() error {
-				cmu.Lock()
-				cnt++
-				n := cnt
-				calls = append(calls, [2]int64{id, n})
-				cmu.Unlock()
-				if n <= fails {
-					return errFetch
-				}
-				return nil
-			}, "key"+strconv.FormatInt(id, 10))
-		case "tick":
-			tk.c <- time.Now()
-		}
-		if !hx.Quiesce(busy, 5*time.Second) {
-			out.Err = "cleaner did not quiesce"
-			return out
-		}
-		st.T = rec.takeOps()
-		st.F = rec.fs.take()
-		cmu.Lock()
-		st.C = calls
-		calls = [][2]int64{}
-		cmu.Unlock()
-		sort.Slice(st.C, func(i, j int) bool {
-			if st.C[i][0] != st.C[j][0] {
-				return st.C[i][0] < st.C[j][0]
-			}
-			return st.C[i][1] < st.C[j][1]
-		})
-		out.Obs = append(out.Obs, st)
-	}
-	return out
-}
-
-func main() {
-	logx.Disable()
-	var cases []Case
-	hx.ReadCases(&cases)
-	w := hx.NewWriter()
-	defer w.Close()
-	for _, c := range cases {
-		switch c.Kind {
-		case "new":
-			w.Put(runNew(c))
-		case "cache":
-			w.Put(runCache(c))
-		case "cleaner":
-			w.Put(runCleaner(c))
-		default:
-			w.Put(runWheel(c))
-		}
-	}
-}
+func main() { c12x.Main() }
